@@ -26,7 +26,8 @@ func reformatDescription(input string, maxWidth int) []string {
 		}
 		lastWasEmpty = false
 
-		words := strings.Split(line, " ")
+		// words are separated by any whitespace, as in the lexer
+		words := strings.Fields(line)
 		for _, word := range words {
 			if pend == "" {
 				pend = word
